@@ -289,6 +289,9 @@ def r4_statement_dropping(ctx):
     kinds = set()
     for t in tests:
         spec = t.args[1]
+        if isinstance(spec, ast.Name):  # the tuple of classes kept in a module constant
+            v = P.module_assign(ctx.py(OPT), spec.id)
+            spec = v if isinstance(v, ast.Tuple) else spec
         kinds |= {P.un(e) for e in (spec.elts if isinstance(spec, ast.Tuple) else [spec])}
     ok = kinds == {"ast.Break", "ast.Continue", "ast.Raise", "ast.Return"}
     ctx.ob("C15.R4", f"{OPT}::_filter_dead_code cuts after {sorted(kinds)}", OPT, fd.lineno, ok, "" if ok else "code is cut after a statement that does not end the block")
@@ -333,6 +336,10 @@ def r4_statement_dropping(ctx):
         return out
 
     interp = Interp(globals_={"ast.iter_child_nodes": lambda n: n.f["_children"], "ast.walk": lambda n: tuple(walk(n))}, fuel=5_000_000)
+    for st in ctx.py(OPT).body:  # a tuple of node classes kept in a module constant
+        if isinstance(st, ast.Assign) and len(st.targets) == 1 and isinstance(st.targets[0], ast.Name) and isinstance(st.value, ast.Tuple) and st.value.elts \
+                and all(isinstance(e, (ast.Attribute, ast.Name)) for e in st.value.elts):
+            interp.spec_aliases[st.targets[0].id] = st.value
     interp.mutable_lists = True
     for f in [s for s in ctx.py(OPT).body if isinstance(s, P.FUNC)]:
         interp.globals[f.name] = (lambda *a, _f=f: interp.call_function(_f, list(a), {}))
